@@ -69,6 +69,7 @@ def closure_trait():
     spec fn kpost(&self, k: KStep, a0: KAbs, a1: KAbs) -> bool;
 ''', fns={'call': FnC(props=P, requires=['self.kpre()'], ensures=[
         ('post', P, 'self.kpost(old(backend).kstep(), old(backend).kabs(), final(backend).kabs())'),
+        ('reach', P + ('C10', 'C11'), 'ks_reach(old(backend).kstep(), old(backend).kabs(), final(backend).kabs())'),
         ('step_kept', P, 'final(backend).kstep() == old(backend).kstep()'),
         ('state_ref_kept', P, 'final(backend).kabs_fut() == old(backend).kabs_fut()')])})
 
@@ -80,25 +81,33 @@ def core_trait():
     spec fn kstep(&self) -> KStep;
     // number of keystream blocks left before the generator would repeat (None: unbounded / not representable)
     spec fn klimit(&self) -> Option<int>;
+    // the generator state at block position 0 of this instance (seekable cores); no data operation changes it
+    spec fn korigin(&self) -> KAbs;
 ''', fns={
         'remaining_blocks': FnC(ret='r', props=('C10', 'C11'), ensures=[
             ('exact', ('C10', 'C11'), 'r is Some ==> self.klimit() is Some && r->Some_0 as int == self.klimit()->Some_0'),
             ('none_only_if_unrepresentable', ('C10', 'C11'), 'r is None ==> self.klimit() is None || self.klimit()->Some_0 > usize::MAX')]),
         'process_with_backend': FnC(props=P, requires=['f.kpre()'], ensures=[
             ('post', P, 'f.kpost(old(self).kstep(), old(self).kabs(), final(self).kabs())'),
+            ('reach', P + ('C10', 'C11'), 'ks_reach(old(self).kstep(), old(self).kabs(), final(self).kabs())'),
+            ('origin_kept', ('C10',), 'final(self).korigin() == old(self).korigin()'),
             ('step_kept', P, 'final(self).kstep() == old(self).kstep()')]),
         'write_keystream_block': FnC(props=P, ensures=[
             ('one_step', P, '(final(self).kabs(), final(block)@) == old(self).kstep()(old(self).kabs())'),
+            ('origin_kept', ('C10',), 'final(self).korigin() == old(self).korigin()'),
             ('step_kept', P, 'final(self).kstep() == old(self).kstep()')]),
         'apply_keystream_block_inout': FnC(props=P, ensures=[
             ('xor', P, 'final(self).kabs() == old(self).kstep()(old(self).kabs()).0 && block.out_fut()@ == xor_seq(block.in_val()@, old(self).kstep()(old(self).kabs()).1)'),
+            ('origin_kept', ('C10',), 'final(self).korigin() == old(self).korigin()'),
             ('step_kept', P, 'final(self).kstep() == old(self).kstep()')]),
         'apply_keystream_blocks': FnC(props=P, ensures=[
             ('xor', P, 'final(self).kabs() == ' + (KS % 'old(blocks)@.len()') + '.0 && aviews(final(blocks)@) == xor_blocks(aviews(old(blocks)@), ' + (KS % 'old(blocks)@.len()') + '.1)'),
+            ('origin_kept', ('C10',), 'final(self).korigin() == old(self).korigin()'),
             ('step_kept', P, 'final(self).kstep() == old(self).kstep()')]),
         'apply_keystream_blocks_inout': FnC(props=P, requires=['blocks.wf()'], ensures=[
             ('xor', P, 'final(self).kabs() == ' + (KS % 'blocks.out_cur().len()') + '.0 && aviews(blocks.out_fut()) == xor_blocks(aviews(blocks.in_val()), ' + (KS % 'blocks.out_cur().len()') + '.1)'),
             ('len', P, 'blocks.out_fut().len() == blocks.out_cur().len()'),
+            ('origin_kept', ('C10',), 'final(self).korigin() == old(self).korigin()'),
             ('step_kept', P, 'final(self).kstep() == old(self).kstep()')]),
     }, drop_fns=['try_apply_keystream_partial', 'apply_keystream_partial', 'write_keystream_blocks'])
 
@@ -243,7 +252,7 @@ def ctx_items():
     open spec fn kpre(&self) -> bool { true }
     #[verifier::prophetic]
     open spec fn kpost(&self, k: KStep, a0: KAbs, a1: KAbs) -> bool { (a1, mut_ref_future(self.block)@) == k(a0) }
-''', fns={'call': FnC(props=P, inherits=True)}),
+''', fns={'call': FnC(props=P, inherits=True, stmts={'0': 'let ghost k0 = backend.kstep(); let ghost a0 = backend.kabs();', 'end': 'proof { ks_reach_one(k0, a0); }'})}),
         Sel('struct ApplyBlockCtx'),
         Sel('impl BlockSizeUser for ApplyBlockCtx'),
         Sel('impl StreamCipherClosure for ApplyBlockCtx', members='''
@@ -252,7 +261,7 @@ def ctx_items():
     open spec fn kpost(&self, k: KStep, a0: KAbs, a1: KAbs) -> bool {
         a1 == k(a0).0 && self.block.out_fut()@ == xor_seq(self.block.in_val()@, k(a0).1)
     }
-''', fns={'call': FnC(props=P, inherits=True)}),
+''', fns={'call': FnC(props=P, inherits=True, stmts={'0': 'let ghost k0 = backend.kstep(); let ghost a0 = backend.kabs();', 'end': 'proof { ks_reach_one(k0, a0); }'})}),
         Sel('struct ApplyBlocksCtx'),
         Sel('impl BlockSizeUser for ApplyBlocksCtx'),
         Sel('impl StreamCipherClosure for ApplyBlocksCtx', members='''
